@@ -89,7 +89,7 @@ CLAIMED.update({
              "gives the same registers, memory and final control transfer as the original order (edge soundness as dependency paths, frame lemmas, commutation of non-conflicting instructions, accepted moves pass only "
              "non-conflicting instructions); block moves change no address and no lookup. Execution semantics = the IR reference semantics (effects evaluated in the pre-state, IP write = jump)",
              note=_N + "Go maps/sets as duplicate-free lists, instructions identified by position; the emulator's own step is C03's subject.", technique="Lean 4 proof (commutation + induction over move histories) + correspondence incl. execution of both orders"),
- "C06": dict(text=_T % "C06" + "no finder adds a spurious edge (every edge joins instructions that conflict by the property's clause list) and, in every state reachable from well-formed code, Independent(seq[i], seq[i+1]) implies Move(i,i+1) succeeds",
+ "C06": dict(text=_T % "C06" + "(Independent carries one clause more than the property text: neither instruction writes the IP — forced by C05, see known finding F46) no finder adds a spurious edge (every edge joins instructions that conflict by the property's clause list) and, in every state reachable from well-formed code, Independent(seq[i], seq[i+1]) implies Move(i,i+1) succeeds",
              note=_N, technique="Lean 4 proof + correspondence over all adjacent pairs of generated blocks"),
  "C07": dict(text=_T % "C07" + "a move is accepted iff both positions are valid and LowerBound <= to <= UpperBound; rejected operations change nothing; accepted = rotation of the segment; invariant (indices, contiguous addresses, exact "
              "Block/Code lookups, all edges forward, bounds contain each instruction) holds initially and after any history of instruction moves, block moves and lookups; nothing panics",
